@@ -141,9 +141,16 @@ def run_case(case) -> Result:
             noise = case.get("noise")
             if noise:
                 n_start, n_count, n_gap = float(noise[0]), min(int(noise[1]), 60), max(int(noise[2]), 50) / 1000.0
-                for i in range(n_count):
-                    W.inject(W.transports[-1], R.frame(sim.vp_identifier, clients.CLIENT_ID, b"NOISE" + bytes([i])), peer.addr, delay=n_start + i * n_gap)
+                async def noise_stream():
+                    # (a task that sleeps, not inject(delay=...): a delayed injection would push the FIFO horizon of the whole
+                    # connection to the end of the stream and hold every reply back behind it)
+                    await W.sleep(n_start)
+                    for i in range(n_count):
+                        W.inject(W.transports[-1], R.frame(sim.vp_identifier, clients.CLIENT_ID, b"NOISE" + bytes([i])), peer.addr)
+                        await W.sleep(n_gap)
+                noise_task = asyncio.ensure_future(noise_stream())
             tasks = []
+            noise_task = None if not noise else noise_task
             cancelled_ix = set()
             if case.get("hole"):
                 # every status answer loses one middle segment, for ever: each refresh attempt ends out of sequence
@@ -176,6 +183,8 @@ def run_case(case) -> Result:
                     continue
                 elif t.exception() is not None:
                     raise t.exception()
+            if noise_task is not None:
+                await noise_task
             if res.violations:
                 return
             W.s2c_tape, W.c2s_tape = [], []
